@@ -31,7 +31,7 @@ struct Fault {
     ctx: Ctx,
 }
 
-const FAULTS: [Fault; 20] = [
+const FAULTS: [Fault; 26] = [
     // both operands of && and || are evaluated (C05): an undefined symbol on either side is an error
     Fault { name: "undefined-symbol-right-of-false-and", lines: &["ldi r16, 0 && undefined_sym_q"], ctx: Ctx::Code },
     Fault { name: "undefined-symbol-right-of-true-or", lines: &[".dw 1 || undefined_sym_q"], ctx: Ctx::Data },
@@ -53,7 +53,18 @@ const FAULTS: [Fault; 20] = [
     Fault { name: "dw-value-out-of-range", lines: &[".dw 99999"], ctx: Ctx::Data },
     Fault { name: "unknown-directive", lines: &[".frobnicate 1"], ctx: Ctx::Any },
     Fault { name: "error-directive", lines: &[".error \"boom\""], ctx: Ctx::Any },
+    // a .set variable has no value before its first assignment (the programs end with `.set late_set_q = 7`)
+    Fault { name: "set-variable-used-before-its-first-assignment-in-instruction", lines: &["ldi r16, late_set_q"], ctx: Ctx::Code },
+    Fault { name: "set-variable-used-before-its-first-assignment-in-dw", lines: &[".dw late_set_q"], ctx: Ctx::Data },
+    Fault { name: "set-variable-used-before-its-first-assignment-in-set", lines: &[".set other_set_q = late_set_q + 1"], ctx: Ctx::Any },
+    // names of more than 250 characters: the message still names the line
+    Fault { name: "undefined-symbol-with-a-long-name", lines: &["ldi r16, q_name00_name01_name02_name03_name04_name05_name06_name07_name08_name09_name10_name11_name12_name13_name14_name15_name16_name17_name18_name19_name20_name21_name22_name23_name24_name25_name26_name27_name28_name29_name30_name31_name32_name33_name34_name35_end"], ctx: Ctx::Code },
+    Fault { name: "undefined-symbol-with-a-long-name-in-dw", lines: &[".dw 1, q_name00_name01_name02_name03_name04_name05_name06_name07_name08_name09_name10_name11_name12_name13_name14_name15_name16_name17_name18_name19_name20_name21_name22_name23_name24_name25_name26_name27_name28_name29_name30_name31_name32_name33_name34_name35_end + 1"], ctx: Ctx::Data },
+    Fault { name: "unknown-mnemonic-with-a-long-name", lines: &["q_name00_name01_name02_name03_name04_name05_name06_name07_name08_name09_name10_name11_name12_name13_name14_name15_name16_name17_name18_name19_name20_name21_name22_name23_name24_name25_name26_name27_name28_name29_name30_name31_name32_name33_name34_name35_end r1, r2"], ctx: Ctx::Code },
 ];
+
+/// last line of every fault program: the first (and only) assignment of a variable
+const EPILOGUE: &str = ".set late_set_q = 7\n";
 
 fn has_number_token(text: &str, n: usize) -> bool {
     let needle = n.to_string();
@@ -119,7 +130,7 @@ pub fn run(tier: Tier) -> i32 {
     // 0. every corpus program must build with the prefix (otherwise "exactly one line at fault" fails)
     let mut usable: Vec<(&'static str, &'static str)> = vec![];
     for (n, s) in progs.iter() {
-        let o = sut::build_str(&format!("{}{}", prefix, s));
+        let o = sut::build_str(&format!("{}{}{}", prefix, s, EPILOGUE));
         if o.is_ok() {
             usable.push((n, s));
         } else {
@@ -177,6 +188,7 @@ pub fn run(tier: Tier) -> i32 {
             text.push_str(l);
             text.push('\n');
         }
+        text.push_str(EPILOGUE);
         let o = sut::build_str(&text);
         evals.fetch_add(1, Ordering::Relaxed);
         *fault_use.lock().unwrap().entry(f.name).or_insert(0) += 1;
